@@ -42,7 +42,7 @@ for d in sorted(glob.glob(os.path.join(src, "*", "*.diff"))):
         for p in PROPS:
             try:
                 ctx = analyse(p, tmp, False)
-                new = [f for f in ctx.findings if f.key not in (base[p] or set())]
+                new = [f for f in ctx.findings if f.key not in (base[p] or set()) and match_known(f, load_known(), set(ctx.model.functions)) is None]
                 if new:
                     out[p] = ["VIOLATION " + f.rule + " " + f.function + ": " + f.message[:140] for f in new[:3]]
             except AnalysisError as e:
